@@ -21,3 +21,15 @@ Print Assumptions C04.
 Theorem C04_unrestricted_refuted : ~ C04_statement.
 Proof. exact C04_counterexample. Qed.
 Print Assumptions C04_unrestricted_refuted.
+
+(* Over histories (any sequence of Call and Redefine on shared functions, from
+   an empty memo table, one declaration per function id): every Call satisfies
+   c04_ok, and the function error a call returns was returned by an execution
+   of THIS call or is the memoized error of a run-once function that failed
+   earlier in the history (Monitors.c04_error_origin, also evaluated on the
+   implementation). *)
+From ArgMapper Require Import HistoryStatements HistoryStatements2.
+From ArgMapper.proofs Require C0417Hist.
+Theorem C04_history : C04_history_statement.
+Proof. exact C0417Hist.C04_history_proof. Qed.
+Print Assumptions C04_history.
